@@ -115,7 +115,7 @@ hdr!(
     c10_u64_eps: U64, true, 64, 40; c10_u64_full: U64, false, 64, 40;
     c10_tup2_eps: Tup2, true, 64, 40; c10_tup2_full: Tup2, false, 64, 40;
     c10_arru32x1_eps: ArrU32x1, true, 64, 40; c10_arru32x1_full: ArrU32x1, false, 64, 40;
-    c10_optu8_eps: OptU8, true, 64, 40; c10_optu8_full: OptU8, false, 64, 40;
+    c10_i8_eps: I8, true, 64, 40; c10_i8_full: I8, false, 64, 40;
 );
 
 /// Reachability twin.
